@@ -525,7 +525,10 @@ read_more:
 			return (ARCHIVE_FATAL);
 		}
 		llen = len;
-		if ((nl == 0) && (uudecode->state != ST_UUEND)) {
+		/* An "end" without a line terminator is only complete when
+		 * it is the last thing in the stream. */
+		if ((nl == 0) &&
+		    (uudecode->state != ST_UUEND || ravail > 0)) {
 			if (total == 0 && ravail <= 0) {
 				/* There is nothing more to read, fail */
 				archive_set_error(&self->archive->archive,
